@@ -231,8 +231,67 @@ function nativeCensus() {
     ob.n, ob.l instanceof Array, ob.l.length, st.Label(), st.Hello instanceof Function, li instanceof Array, li.length, goArr().length].join(''));
   return out.join(',');
 }
+// closures created BEFORE any Copy under every kind of scope-chain link: with (top level, inside a
+// function, nested, over a template object, around eval / an accessor / a declaration / a bound
+// function), catch, catch+with, named function expression, and a chain mixing all of them; each
+// reads and writes free variables that are NOT properties of the with-object
+var total = 0, total2 = 0, gfree = 0, gc = 0, gv = 0, cnt = 0;
+var cfg = {step: 2}, wa = {x: 1}, wb = {y: 10};
+T.sc = {};
+with (cfg) { T.sc.bump = function () { total += step; return total; }; }
+T.sc.counter = (function () { var acc = 0, opts = {inc: 10}; with (opts) { return function () { acc += inc; return acc; }; } })();
+with (wa) { with (wb) { T.sc.nest = function () { x++; return x + y + (gfree++); }; } }
+try { throw 5; } catch (e) { T.sc.cat = function () { e += 1; gc += 1; return e + ':' + gc; }; }
+T.sc.catw = (function () { var loc = 0; try { null.x; } catch (err) { with (cfg) { return function () { loc += step; return err.name + loc; }; } } })();
+T.sc.named = function self(n) { return n ? self(n - 1) + (cnt++) : 0; };
+T.sc.wobj = (function () { var o = {p: 1}, loc = 0; with (o) { return function () { p++; loc++; return p + ':' + loc + ':' + o.p; }; } })();
+T.sc.wtobj = {a: 1};
+with (T.sc.wtobj) { T.sc.wt = function () { a += 1; return a + ':' + (total2 += 1); }; }
+with (cfg) { eval("T.sc.ev = function () { total2 += step; return total2; }"); }
+with (cfg) { T.sc.get = {get v() { return (gv += step); }, set v(x) { gv = x * step; }}; }
+with (cfg) { T.sc.decl = (function () { function inner() { return (gv += step) + ':' + typeof inner; } return inner; })(); }
+with (cfg) { T.sc.bound = function (k) { total += k * step; return total; }.bind(null, 1); }
+T.sc.deep = (function () { var a1 = 1; return (function () { var a2 = 2; with ({a3: 3}) { return (function () { var a4 = 4; try { throw 5; } catch (a5) { return function () { a1++; a2++; a3++; a4++; a5++; return [a1, a2, a3, a4, a5].join(''); }; } })(); } })(); })();
+with (cfg) { T.sc.maker = function () { var made = 0; return function () { made += step; total += 1; return made + ':' + total; }; }; }
+function sp(f) { try { return f(); } catch (e) { return e.name; } }
+function scopeProbe() {
+  var s = T.sc, late = sp(s.maker);
+  return [sp(s.bump), sp(s.bump), total, sp(s.counter), sp(s.counter), sp(s.nest), sp(s.nest), wa.x, gfree, sp(s.cat), sp(s.cat), gc, sp(s.catw), sp(function () { return s.named(3); }), cnt,
+    sp(s.wobj), sp(s.wobj), sp(s.wt), s.wtobj.a, sp(s.ev), total2, s.get.v, (s.get.v = 3, gv), sp(s.decl), sp(s.bound), sp(s.deep), sp(s.deep), typeof late === 'function' ? sp(late) + sp(late) : late, cfg.step].join(',');
+}
+function scopePeek() { return [total, total2, gfree, gc, gv, cnt, wa.x, cfg.step, T.sc.wtobj.a].join('.'); }
+// every accessor function reachable from the objects of this runtime must be a function of THIS
+// runtime (instanceof its Function, prototype its Function.prototype); a fresh bound function's
+// caller/arguments are looked at the hard way
+function accessorCensus(tag) {
+  var objs = literals().concat(T.bf, [T.fn, note, T.bound, T.args, T.err, T.caught[0], T.made[0], Math.max, goS.Hello, goF, T.sc.bump, T.sc.bound, T.sc.get, T.acc, T.gs[0] || {}]);
+  var fb = function () {}.bind(null, tag); objs.push(fb);
+  var bad = [], n = 0;
+  for (var i = 0; i < objs.length; i++) {
+    var o = Object(objs[i]), ks = Object.getOwnPropertyNames(o);
+    for (var j = 0; j < ks.length; j++) {
+      var d = Object.getOwnPropertyDescriptor(o, ks[j]), gs = d ? [d.get, d.set] : [];
+      for (var q = 0; q < 2; q++) {
+        var g = gs[q];
+        if (g === undefined || g === null) continue;
+        n++;
+        if (!(g instanceof Function) || Object.getPrototypeOf(g) !== Function.prototype || !(g instanceof Object)) bad.push(i + '.' + ks[j] + '.' + q);
+      }
+    }
+  }
+  var extra = [];
+  var names = ['caller', 'arguments'];
+  for (var k = 0; k < 2; k++) {
+    var dc = Object.getOwnPropertyDescriptor(fb, names[k]);
+    extra.push(dc ? typeof dc.get + typeof dc.set + ('value' in dc) : 'none');
+    if (dc && dc.get) { dc.get['am' + tag] = tag; extra.push(Object.getOwnPropertyNames(dc.get).sort().join('.') + Object.isExtensible(dc.get)); }
+    extra.push(sp(function () { return typeof fb[names[k]]; }), sp(function () { fb[names[k]] = 1; return 'set'; }));
+    try { fb[names[k]]; } catch (e) { extra.push(e instanceof TypeError, String(e.stack).split('\n').length); }
+  }
+  return n + ':' + (bad.length ? 'notFunctionOfThisRuntime ' + bad.join() : 'own') + ':' + extra.join('.');
+}
 function peeks() {
-  var out = [nativeCensus()];
+  var out = [nativeCensus(), scopePeek()];
   for (var i = 0; i < T.cl.length; i++) out.push(T.cl[i].peek());
   for (var j = 0; j < T.ma.length; j++) out.push(T.ma[j].peek());
   for (var k = 0; k < T.gs.length; k++) out.push(T.gs[k].v);
@@ -381,7 +440,11 @@ func (g *gen) generic(R int) string {
 // programs that mutate and observe the state built by setupJS
 func (g *gen) stateful(R int) string {
 	k := g.r.Intn(9)
-	switch g.r.Intn(38) {
+	switch g.r.Intn(44) {
+	case 38, 39, 40, 41:
+		return `scopeProbe() + '|' + scopePeek()`
+	case 42, 43:
+		return fmt.Sprintf(`accessorCensus('%d_%d')`, R, k)
 	case 0:
 		return fmt.Sprintf(`T.o3['k%d_%d'] = %d; dig(T.o3)+keysIn(T.o3)`, R, k, R)
 	case 1:
@@ -875,6 +938,7 @@ func pinnedJobs() []Job {
 				for i := 0; i < 4; i++ {
 					ps = append(ps, fmt.Sprintf(`callBound('p%d_%d')`, R, i))
 				}
+				ps = append(ps, `scopeProbe() + '|' + scopePeek()`, fmt.Sprintf(`accessorCensus('p%d')`, R), `scopeProbe() + '|' + scopePeek()`)
 				ps = append(ps,
 					fmt.Sprintf(`goS.Hello.mark = %d; [typeof goS.Hello.mark, goS.Hello instanceof Function, Object.getPrototypeOf(goS.Hello) === Function.prototype, goS.Hello('p'), goS.Sum(%d, 1)].join() + '|' + nativeCensus()`, R, R),
 					fmt.Sprintf(`T.made[0].stack = 'rw%d'; T.caught[0].stack = %d; [typeof T.made[0].stack, String(T.made[0].stack).slice(0, 14), typeof T.caught[0].stack].join() + '|' + nativeCensus()`, R, R),
@@ -891,7 +955,7 @@ func pinnedJobs() []Job {
 			j.Yield = append(j.Yield, rt%3)
 		}
 		if mode/3 == 1 {
-			j.TProgs = []string{`goS.Hello.mark = 't'; T.made[1].stack = 'rwT'; [typeof goS.Hello.mark, goS.Hello instanceof Function, typeof T.made[1].stack].join() + '|' + nativeCensus()`, `function tOuter() { return tInner(); } function tInner() { return (tInner.caller === tOuter) + ':' + callerCensus(); } tOuter()`, `callBound('t')`, `sweep('t')`, `glob += 100; T.counter.inc(); tOuter() + glob`}
+			j.TProgs = []string{`scopeProbe() + '|' + scopePeek()`, `accessorCensus('t')`, `goS.Hello.mark = 't'; T.made[1].stack = 'rwT'; [typeof goS.Hello.mark, goS.Hello instanceof Function, typeof T.made[1].stack].join() + '|' + nativeCensus()`, `function tOuter() { return tInner(); } function tInner() { return (tInner.caller === tOuter) + ':' + callerCensus(); } tOuter()`, `callBound('t')`, `sweep('t')`, `glob += 100; T.counter.inc(); tOuter() + glob`}
 		}
 		js = append(js, j)
 	}
@@ -902,7 +966,7 @@ func pinnedJobs() []Job {
 		for i := 0; i < 6; i++ {
 			ps = append(ps, fmt.Sprintf(`var out = []; for (var i = 0; i < 12; i++) { out.push((1234567.5 + i + %d).toLocaleString(%s)); if (i %% 4 == 0) yield(); } out.join(' ') + '|' + new Date(2000 + %d, %d, 1, 12).toLocaleString() + '|' + Math.round(Math.random())*0`, i, l, rt, i))
 		}
-		ps = append(ps, probeJS)
+		ps = append(ps, fmt.Sprintf(`accessorCensus('l%d')`, rt), `scopeProbe()`, probeJS)
 		loc.Progs = append(loc.Progs, ps)
 		loc.Yield = append(loc.Yield, rt%3)
 	}
@@ -917,7 +981,7 @@ func pinnedJobs() []Job {
 		{Parent: 3, Trace: -1, Random: -1},
 	}}
 	for rt := range fam.Family {
-		ps := []string{`glob += 1; for (var i = 0; i < 10; i++) { glob++; } glob`, `settingsProbe()`, fmt.Sprintf(`callBound('f%d')`, rt),
+		ps := []string{`glob += 1; for (var i = 0; i < 10; i++) { glob++; } glob`, `settingsProbe()`, fmt.Sprintf(`callBound('f%d')`, rt), `scopeProbe() + '|' + scopePeek()`, fmt.Sprintf(`accessorCensus('f%d')`, rt),
 			fmt.Sprintf(`function fo%d() { return fi%d(); } function fi%d() { return (fi%d.caller === fo%d) + ':' + callerCensus(); } fo%d()`, rt, rt, rt, rt, rt, rt), `settingsProbe()`, probeJS}
 		fam.Progs = append(fam.Progs, ps)
 		fam.Yield = append(fam.Yield, rt%3)
@@ -1414,6 +1478,50 @@ func pinnedFindings(env *Env) {
 	env.Add(fmt.Sprintf("CPin 30 %s %s %s", cResult(obs), cResult(required), cResult(required)), txt, "pinned regression", true)
 	if obs != required {
 		env.Add(fmt.Sprintf("CPin 30 %s %s %s", cResult(obs), cResult(required), cResult(required)), "pinned regression OBSERVED "+obs, "pinned regression", true)
+	}
+	pinnedEquivalence(env)
+}
+
+// the deterministic probes of the setup library, one after the other
+var equivalenceProbes = []string{
+	`scopeProbe() + '|' + scopePeek()`, `scopeProbe() + '|' + scopePeek()`, `accessorCensus('q')`, `callBound('q')`, `nativeCensus()`, `callerCensus()`,
+	`settingsProbeNR()`, `sweep('q')`, `T.counter.inc(); T.counter.get() + T.margs.set(3) + T.bound(1) + T.acc.v`, `accessorCensus('r')`, `scopePeek() + '|' + census() + '|' + dig(T).length`,
+}
+
+// pinnedEquivalence (class 31), sequential and identical on every seed: the probe sequence on
+//   a second and third FRESH runtime of the process,
+//   two copies of a template, a copy of a copy, and then the template itself,
+// must each give exactly what it gives on the first fresh runtime of this run: a later runtime, a
+// copy or a copied-from template is not allowed to differ from a runtime that is alone.
+func pinnedEquivalence(env *Env) {
+	runAll := func(vm *otto.Otto) string {
+		var out []string
+		for _, p := range equivalenceProbes {
+			out = append(out, resultText(RunJS(vm, p)))
+		}
+		return strings.Join(out, " ## ")
+	}
+	required := runAll(newTemplate(""))
+	tpl := newTemplate("")
+	c1, c2 := tpl.Copy(), tpl.Copy()
+	c3 := c1.Copy()
+	who := []string{"second fresh runtime", "third fresh runtime", "copy 1", "copy 2", "copy of copy 1 (made before copy 1 ran)", "the template after its copies ran"}
+	vms := []*otto.Otto{newTemplate(""), newTemplate(""), c1, c2, c3, tpl}
+	for i, vm := range vms {
+		obs := runAll(vm)
+		txt := fmt.Sprintf("pinned equivalence: %s runs the probe sequence %s; required = what the first fresh runtime of the run answers", who[i], jsq(strings.Join(equivalenceProbes, " ; ")))
+		env.Add(fmt.Sprintf("CPin 31 %s %s %s", cResult(obs), cResult(required), cResult(required)), txt, "pinned equivalence", true)
+		if obs != required {
+			a, b := strings.Split(obs, " ## "), strings.Split(required, " ## ")
+			d := ""
+			for k := range b {
+				if k < len(a) && a[k] != b[k] {
+					d = fmt.Sprintf("probe %q: got %s, alone %s", equivalenceProbes[k], clip(a[k], 500), clip(b[k], 500))
+					break
+				}
+			}
+			env.Add(fmt.Sprintf("CPin 31 %s %s %s", cResult(obs), cResult(required), cResult(required)), "pinned equivalence OBSERVED "+who[i]+" differs: "+d, "pinned equivalence", true)
+		}
 	}
 }
 
